@@ -55,6 +55,107 @@ def sets_success(stmts, value):
     return False
 
 
+def inline_helpers(stmts, helpers, depth=0):
+    """Replace a bare call statement `helper(...)` of a module-level function by that function's body (so that
+    bookkeeping moved into a private helper is still seen)."""
+    out = []
+    for st in stmts:
+        if (depth < 3 and isinstance(st, ast.Expr) and isinstance(st.value, ast.Call)
+                and isinstance(st.value.func, ast.Name) and st.value.func.id in helpers):
+            out.extend(inline_helpers(helpers[st.value.func.id].body, helpers, depth + 1))
+        else:
+            out.append(st)
+    return out
+
+
+def split_isinstance(handler, classes):
+    """`except T as e: if isinstance(e, C): A else: B`  ==  ladder rows (C -> A), (T -> B), provided every C is a
+    subclass of some class of T (so the first row cannot catch more than the handler did).  Anything else: one row."""
+    body = [b for b in handler.body if not (isinstance(b, ast.Expr) and isinstance(b.value, ast.Constant))]
+    if (handler.name and len(body) >= 1 and isinstance(body[0], ast.If) and body[0].orelse
+            and isinstance(body[0].test, ast.Call) and isinstance(body[0].test.func, ast.Name)
+            and body[0].test.func.id == "isinstance" and len(body[0].test.args) == 2
+            and isinstance(body[0].test.args[0], ast.Name) and body[0].test.args[0].id == handler.name):
+        inner = names_of(body[0].test.args[1])
+        try:
+            outer_cls = tuple(getattr(builtins, c) for c in classes)
+            ok = all(issubclass(getattr(builtins, c), outer_cls) for c in inner)
+        except (AttributeError, TypeError):
+            ok = False
+        if ok:
+            rest = body[1:]
+            return [(inner, body[0].body + rest), (classes, body[0].orelse + rest)]
+    return [(classes, handler.body)]
+
+
+class _ProbeFailed(Exception):
+    pass
+
+
+def probe_ladder(known):
+    """Fallback when the except-ladder is not understood syntactically (e.g. after a refactoring): derive it from
+    BEHAVIOUR.  ast.parse inside pedal.source.source is replaced by a function raising an instance of each class
+    in CLASSES (with and without a line), verify() runs on a fresh report, and what it did is recorded as one ladder
+    row per class, most derived classes first."""
+    import pedal.source.source as srcmod
+    from pedal.core.report import Report
+    from pedal.core.submission import Submission
+    real_ast = srcmod.ast
+    rows = []
+
+    class Shim:
+        def __init__(self, exc):
+            self.exc = exc
+
+        def __getattr__(self, name):
+            return getattr(real_ast, name)
+
+        def parse(self, source, *a, **k):
+            if source == "":
+                return real_ast.parse(source)
+            raise self.exc
+    order = sorted(CLASSES, key=lambda c: -len(getattr(builtins, c).__mro__))
+    for c in order:
+        cls = getattr(builtins, c)
+        if not issubclass(cls, Exception):
+            continue        # KeyboardInterrupt etc. are not the ladder's business; the model says "escapes"
+        obs = []
+        for with_line in (True, False):
+            if issubclass(cls, SyntaxError):
+                exc = cls("probe", ("answer.py", 3 if with_line else None, 1, "x = (", 3 if with_line else None, 2))
+            elif issubclass(cls, UnicodeError) and cls is not UnicodeError:
+                exc = (cls("utf-8", "x", 0, 1, "probe") if cls is UnicodeEncodeError
+                       else cls("utf-8", b"x", 0, 1, "probe"))
+            else:
+                exc = cls("probe")
+            rep = Report()
+            rep.contextualize(Submission({"answer.py": "x = (\n\n\n"}, "answer.py"))
+            srcmod.ast = Shim(exc)
+            try:
+                try:
+                    srcmod.verify(report=rep)
+                    raised = None
+                except BaseException as e:      # noqa
+                    raised = type(e).__name__
+            finally:
+                srcmod.ast = real_ast
+            fbs = [(type(f).__name__, f.fields.get("lineno") if hasattr(f, "fields") else None) for f in rep.feedback
+                   if type(f).__name__ in known]
+            obs.append((raised, fbs, rep["source"]["success"]))
+        (r1, f1, s1), (r2, f2, s2) = obs
+        if r1 is not None or r2 is not None:
+            continue                        # escapes: no row (the model then says it raises)
+        if len(f1) != 1 or len(f2) != 1 or f1[0][0] != f2[0][0] or s1 is not False or s2 is not False:
+            rows.append(([c], "opaque", "other"))
+            continue
+        if issubclass(cls, SyntaxError):
+            kind = "lineno" if (f1[0][1] == 3 and f2[0][1] is None) else ("none" if f1[0][1] is None else "other")
+        else:
+            kind = "none" if f1[0][1] is None and f2[0][1] is None else "other"
+        rows.append(([c], f1[0][0], kind))
+    return rows
+
+
 def translate():
     use_repo()
     from pedal.source import feedbacks as fbmod
@@ -66,6 +167,7 @@ def translate():
     known = {name for name in dir(fbmod) if isinstance(getattr(fbmod, name), type)
              and issubclass(getattr(fbmod, name), Feedback)}
     categories = sorted((name, getattr(fbmod, name).category or "") for name in known)
+    helpers = {n.name: n for n in tree.body if isinstance(n, ast.FunctionDef) and n.name != "verify"}
     load_fb, blank_fb, blank_returns, load_returns = "opaque", "opaque", False, False
     handlers, else_success = [], False
     parse_in_try = False
@@ -83,17 +185,28 @@ def translate():
             parse_in_try = any(isinstance(n, ast.Call) and ast.unparse(n.func) == "ast.parse"
                                for b in st.body for n in ast.walk(b))
             for h in st.handlers:
-                name, kind = feedback_call(h.body, known)
-                reraises = any(isinstance(n, ast.Raise) for b in h.body for n in ast.walk(b))
-                if name is None or reraises or not sets_success(h.body, False):
-                    handlers.append((names_of(h.type), "opaque", "other"))
-                else:
-                    handlers.append((names_of(h.type), name, kind))
+                for classes, body in split_isinstance(h, names_of(h.type)):
+                    body = inline_helpers(body, helpers)
+                    name, kind = feedback_call(body, known)
+                    reraises = any(isinstance(n, ast.Raise) for b in body for n in ast.walk(b))
+                    if name is None or reraises or not sets_success(body, False) or "?" in classes:
+                        handlers.append((classes, "opaque", "other"))
+                    else:
+                        handlers.append((classes, name, kind))
             else_success = sets_success(st.orelse, True)
             if st.finalbody:
                 handlers.insert(0, (["BaseException"], "opaque", "other"))
     if not parse_in_try:
         handlers = [(["BaseException"], "opaque", "other")]
+    ladder_source = "ast"
+    if any(fb == "opaque" for _, fb, _ in handlers):
+        # not understood syntactically: fall back to the behaviour of the real verify() under a probing ast.parse
+        try:
+            probed = probe_ladder(known)
+            if probed and not any(fb == "opaque" for _, fb, _ in probed):
+                handlers, ladder_source = probed, "probed"
+        except Exception:  # noqa: the probe could not run; keep the opaque rows (the theorems then fail)
+            pass
     mros = []
     for c in CLASSES:
         cls = getattr(builtins, c)
@@ -123,7 +236,7 @@ def translate():
     ])
     changed = write_if_changed(os.path.join(LEAN_DIR, "PedalModel", "Gen", "SourceTables.lean"), src)
     return {"file": "PedalModel/Gen/SourceTables.lean", "sha1": hashlib.sha1(src.encode()).hexdigest()[:12],
-            "changed": changed}
+            "changed": changed, "ladder_source": ladder_source}
 
 
 if __name__ == "__main__":
